@@ -264,6 +264,13 @@ struct SV {
         case 1: { // emplace_back
             if (!room) { return; }
             int v = draw_val();
+            if (v == 0 && ch.flag()) { // no arguments at all: the new element is value-initialised whatever the slot held before
+                CR("emplace_back()", sit(room == 1 ? "fills" : "fits"), "m=%s", show(m).c_str());
+                e.emplace_back();
+                m.emplace_back(0);
+                CV("emplace_back()", 0);
+                break;
+            }
             CR("emplace_back(args)", sit(room == 1 ? "fills" : "fits"), "m=%s v=%d", show(m).c_str(), v);
             if constexpr (VF_ELEM == 1) {
                 e.emplace_back(Pod{v, 1});
@@ -332,6 +339,15 @@ struct SV {
         case 0: { // emplace(pos, args)
             if (!room) { return; }
             int v = draw_val();
+            if (v == 0 && ch.flag()) {
+                CR("emplace(pos)", sit(poscls(pos, L), room == 1 ? "fills" : "fits"), "m=%s pos=%zu", show(m).c_str(), pos);
+                auto it0  = e.emplace(e.cbegin() + pos);
+                auto off0 = it0 - e.begin();
+                m.insert(m.begin() + (std::ptrdiff_t)pos, 0);
+                CV("emplace(pos)", pos);
+                vf::eq_int("ret-offset", off0, (long long)pos);
+                break;
+            }
             CR("emplace(pos,args)", sit(poscls(pos, L), room == 1 ? "fills" : "fits"), "m=%s pos=%zu v=%d", show(m).c_str(), pos, v);
             bool args = ch.flag(); // constructor arguments forwarded, or a T rvalue
             auto it   = args ? e.emplace(e.cbegin() + pos, EARGS(v)) : e.emplace(e.cbegin() + pos, mkT(v));
@@ -797,11 +813,13 @@ struct IV {
             switch (w) {
             case 0: { // try_emplace_back
                 std::snprintf(sit, sizeof sit, "%s,%s", stc(m), room ? "has-room" : "full-must-fail");
-                vf::crumb(subj, "try_emplace_back(args)", sit, "m=%s v=%d", show(m).c_str(), v);
-                T* p = ch.flag() ? e.try_emplace_back(EARGS(v)) : e.try_emplace_back(mkT(v));
-                vf::cover("try_emplace_back(args)", vf::mix(sh, v));
+                bool noargs = v == 0 && ch.flag(); // value-initialised element, whatever the reused slot held
+                vf::crumb(subj, noargs ? "try_emplace_back()" : "try_emplace_back(args)", sit, "m=%s v=%d", show(m).c_str(), v);
+                T* p = noargs ? e.try_emplace_back() : (ch.flag() ? e.try_emplace_back(EARGS(v)) : e.try_emplace_back(mkT(v)));
+                vf::cover(noargs ? "try_emplace_back()" : "try_emplace_back(args)", vf::mix(sh, v));
                 if (room) {
                     m.push_back(v);
+                    if (p) { vf::eq_int("new-element", val(*p), v); }
                     vf::eq_bool("returns-non-null", p != nullptr, true);
                     if constexpr (N > 0) {
                         if (p) { vf::eq_bool("returns-address-of-back", p == &e.back(), true); }
@@ -830,10 +848,12 @@ struct IV {
                 if constexpr (N > 0) {
                     if (!room) { continue; }
                     std::snprintf(sit, sizeof sit, "%s,%s", stc(m), room == 1 ? "fills" : "fits");
-                    vf::crumb(subj, "unchecked_emplace_back(args)", sit, "m=%s v=%d", show(m).c_str(), v);
-                    T& r = ch.flag() ? e.unchecked_emplace_back(EARGS(v)) : e.unchecked_emplace_back(mkT(v));
+                    bool noargs = v == 0 && ch.flag();
+                    vf::crumb(subj, noargs ? "unchecked_emplace_back()" : "unchecked_emplace_back(args)", sit, "m=%s v=%d", show(m).c_str(), v);
+                    T& r = noargs ? e.unchecked_emplace_back() : (ch.flag() ? e.unchecked_emplace_back(EARGS(v)) : e.unchecked_emplace_back(mkT(v)));
                     m.push_back(v);
-                    vf::cover("unchecked_emplace_back(args)", vf::mix(sh, v));
+                    vf::cover(noargs ? "unchecked_emplace_back()" : "unchecked_emplace_back(args)", vf::mix(sh, v));
+                    vf::eq_int("new-element", val(r), v);
                     vf::eq_bool("returns-back", &r == &e.back(), true);
                 }
                 break;
@@ -947,7 +967,9 @@ struct ST {
             case 1:
                 if (!room) { continue; }
                 vf::crumb(subj, "emplace(args)", st, "m=%s v=%d", show(m).c_str(), v);
-                if (ch.flag()) {
+                if (v == 0 && ch.flag()) {
+                    e.emplace();
+                } else if (ch.flag()) {
                     e.emplace(EARGS(v));
                 } else {
                     e.emplace(mkT(v));
@@ -1138,6 +1160,8 @@ vf::Spec spec(vf::Tier t)
 }
 void run_case(vf::Case& c)
 {
+    // tracked elements are damaged by self-move-assignment (only final values are judged, so a move-based self-swap is fine)
+    if constexpr (kTracked) { vf::self_move_poisons() = true; }
     if (c.enumerated) {
         std::uint64_t k = c.index;
         for (std::size_t i = 0; i < kNCaps; ++i) {
